@@ -47,7 +47,8 @@ def cases(ctx):
     # multivariate (ndim 2, 3): point alphabets with integer pairwise Euclidean distances
     out += ndim_cases(rng, n // 2, 5, RECT2, ("sq", "eu"), pens=(0, 1), mss=(0, 0, 4), mds=(0, 0, 7), psi_prob=0.3)
     out += ndim_cases(rng, n // 3, 5, RECT3, ("sq", "eu"), pens=(0, 1), mss=(0, 0, 5), mds=(0, 0, 11), psi_prob=0.3)
-    out += ndim_cases(rng, n // 6, 5, RECT2, ("sq", "eu"), pens=(0,), psi_prob=0.0, prune=True)
+    out += ndim_cases(rng, n // 4, 6, RECT2, ("sq", "eu"), pens=(0,), psi_prob=0.0, prune=True)
+    out += ndim_cases(rng, n // 4, 6, RECT3, ("sq", "eu"), pens=(0,), psi_prob=0.0, prune=True)
     return dc.with_ids(out, "c02-")
 
 
